@@ -551,7 +551,7 @@ func siblingTable(t *rapid.T, ops []ref.Op) []ref.Op {
 			if w <= 0 {
 				w = 0.25
 			}
-			out[i].BP = w
+			out[i].BP = float64(float32(w)) // the engine holds powers as float32: the reference must see the same number
 		}
 	case 1:
 		i, j := rapid.IntRange(0, len(out)-1).Draw(t, "i"), rapid.IntRange(0, len(out)-1).Draw(t, "j")
